@@ -5,6 +5,7 @@ import _checker_common as K
 import _call_common as C
 import C03 as _C03
 import C10 as _C10
+import _callable_common as KC
 
 RULE = ('type-directed: annotation terms over the vocabulary (classes, Any, None, Union/Optional/X|Y, Literal, NewType, Type[..], forward '
         'references, list/set/frozenset/deque/abstract-collection/dict/defaultdict/mapping/tuple generics in typing and PEP 585 spelling, '
@@ -24,6 +25,7 @@ def cases(rng, tier):
     m = 300 if tier == 'quick' else 3000
     out += C.build_cases(rng, m, calls_per=3, style='kw', tag='c01c') + C.scenario_cases(rng, m // 2, style='kw', tag='c01s')
     out += _C10.build_cases(rng, m // 3, 'c01d')
+    out += KC.gen_cases(rng, tier, alts=False)      # simple Callable signatures (separate model PedVerif.Callable)
     if tier == 'thorough':
         vals = K.small_values()
         for at in K.small_terms():
@@ -34,12 +36,12 @@ def cases(rng, tier):
 
 def search(rng, tier, near):
     return K.gen_checker_cases(rng, 40000) + C.build_cases(rng, 1200, calls_per=3, style='kw', tag='c01x') \
-        + C.scenario_cases(rng, 300, style='kw', tag='c01y') + _C10.build_cases(rng, 300, 'c01z')
+        + C.scenario_cases(rng, 300, style='kw', tag='c01y') + _C10.build_cases(rng, 300, 'c01z') + KC.search(rng, tier, near)
 
 
 def run_impl(cases):
     """three kinds of cases, each executed by the runner of its own layer (results back in the original order)"""
-    runners = {'checker': K.run_impl_checker, 'calllayer': C.run_impl_calls, 'typesafe': _C10.run_impl}
+    runners = {'checker': K.run_impl_checker, 'calllayer': C.run_impl_calls, 'typesafe': _C10.run_impl, 'callable': KC.run_impl}
     out = [None] * len(cases)
     for kind, run in runners.items():
         idx = [i for i, c in enumerate(cases) if c['m'] == kind]
@@ -49,6 +51,8 @@ def run_impl(cases):
 
 
 def judge(case, impl, model):
+    if case['m'] == 'callable':
+        return KC.judge_sound(case, impl, model)
     if case['m'] == 'calllayer':          # acceptance by a @pedantic call: C03's oracle (body ran / value returned => conforms)
         j = _C03.judge(case, impl, model)
         if j.get('finding') == 'namedtupleStructuralArgument':
